@@ -22,7 +22,7 @@ RULE = ('A real Client (AsyncClient) is connected to a real Server '
         'coroutine functions, and the packets in flight may be received '
         'back to back (one polling payload) before any background task '
         'runs; calls whose answer stays in flight until they have timed '
-        'out (the late answer must reach nobody). Oracle: the peer handler for that event and '
+        'out (the late answer must reach nobody); a last group of client emits with disconnect() called right behind them. Oracle: the peer handler for that event and '
         'namespace is invoked exactly once with args == the documented '
         'packing of the payload (type-strict), in send order per direction; '
         'callback args / call() result follow the same rule applied to the '
@@ -82,6 +82,13 @@ def strategy(tier):
         'batch': st.booleans(),
         'nss': st.lists(st.integers(0, 3), min_size=1, max_size=3,
                         unique=True),
+        # at the very end the client emits a few more events and calls
+        # disconnect() right behind them: they were sent, so they are handled
+        'final': st.one_of(st.none(), st.lists(st.fixed_dictionaries({
+            'ns': st.integers(0, 3),
+            'data': st.sampled_from([None, 'x', [1, 2], {'k': b'v'},
+                                     (1, 'two')])}),
+            min_size=1, max_size=3)),
         'bursts': st.lists(burst, min_size=1, max_size=8 if big else 4)})
 
 
@@ -150,6 +157,9 @@ def _run(case, ln):
         ssio.on('connect', (lambda sid, environ, auth=None: None),
                 namespace=n)
     seen = set()
+    if case.get('final'):
+        for ns in nss:
+            ssio.on('fin', mk_server(ns, 'fin'), namespace=ns)
     for burst in case['bursts']:
         for m in burst:
             if 'hold' in m:
@@ -312,6 +322,31 @@ def _run(case, ln):
         if not strict_eq(list(calls[0]), slot['want']):
             raise Violation('callback-arguments', '%r != %r'
                             % (list(calls[0]), slot['want']))
+    if case.get('final') and nss:
+        slog.clear()
+        exp = []
+        for m in case['final']:
+            ns = nss[m['ns'] % len(nss)]
+            exp.append((ns, 'fin', pack_args(m['data'])))
+            if aio:
+                ln.loop.run(csio.emit('fin', m['data'], namespace=ns))
+            else:
+                ln.ch.do(csio.emit('fin', m['data'], namespace=ns))
+        if aio:
+            ln.loop.run(csio.disconnect())
+        else:
+            ln.ch.do(csio.disconnect())
+        ln.pump()
+        got = [(e[0], e[1], list(e[3])) for e in slog]
+        if len(got) != len(exp):
+            raise Violation('invocation-count', 'events sent right before '
+                            'disconnect(): %d handled, %d sent: %r'
+                            % (len(got), len(exp), got[:3]))
+        for g, e in zip(got, exp):
+            if g[0] != e[0] or g[1] != e[1] or not strict_eq(g[2], e[2]):
+                raise Violation('arguments-changed', 'before disconnect(): '
+                                '%r != %r' % (g, e))
+        labels['events_right_before_client_disconnect'] = True
     errs = [e for e in ln.ch.bg_errors + ln.sh.bg_errors + [
         x[1] for x in ln.sh.swallowed + ln.ch.swallowed]
         if 'application handler fault' not in str(e)]
